@@ -2,6 +2,7 @@
 
 #include <string>
 #include <string_view>
+#include <cmath>
 
 #ifndef CONCAT_
 #define CONCAT_(L, R) L ## R
@@ -49,6 +50,23 @@
 
 namespace sqf::runtime::util
 {
+    /// The whole number a script number stands for where an index, a count or a size is expected:
+    /// the number without its fraction, limited to the range of int. Converting a float that does not
+    /// fit is undefined behaviour in C++, so every such conversion goes through here. NaN gives the
+    /// smallest int: the "negative" checks of the callers reject it.
+    inline int float_to_int(float f)
+    {
+        if (!(f == f)) { return -2147483647 - 1; }
+        if (f >= 2147483648.0f) { return 2147483647; }
+        if (f <= -2147483648.0f) { return -2147483647 - 1; }
+        return static_cast<int>(f);
+    }
+    /// float_to_int of the number rounded to the nearest whole number (halves away from zero)
+    inline int round_to_int(float f)
+    {
+        return float_to_int(std::round(f));
+    }
+
     inline std::string_view ltrim(std::string_view str, std::string_view chars = " \t")
     {
         size_t startpos = str.find_first_not_of(chars);
